@@ -844,6 +844,56 @@ fn main() {
         return;
     }
 
+    if mode == "repairfail" {
+        // Start-up over each file while the file system fills up: the k-th write() to the segment
+        // file and all later ones fail with ENOSPC (EDQUOT, EIO). The daemon may refuse to start;
+        // if it starts and publishes, new clients must be able to read the record back.
+        use clock_bound_shm::ShmReader;
+        let list = std::fs::read_to_string(arg_str(&args, "list", "")).expect("--list");
+        for (i, path) in list.lines().filter(|l| !l.is_empty()).enumerate() {
+            let original = std::fs::read(path).ok();
+            for after in 0..7u32 {
+                for errno in [libc::ENOSPC, libc::EIO] {
+                    match &original {
+                        Some(b) => std::fs::write(path, b).unwrap(),
+                        None => {
+                            let _ = std::fs::remove_file(path);
+                        }
+                    }
+                    let rec = ClockErrorBound::new(libc::timespec { tv_sec: 1000 + i as i64, tv_nsec: 5 }, libc::timespec { tv_sec: 2000, tv_nsec: 0 }, 777 + after as i64, 50_000, 0, ClockStatus::Synchronized);
+                    vworld::meter::fail_writes_of(path, errno, after, 1000);
+                    let started = catch_unwind(AssertUnwindSafe(|| ShmWriter::new(std::path::Path::new(path))));
+                    vworld::meter::fail_writes_of(path, 0, 0, 0);
+                    let injected = vworld::meter::WRITE_FAILURES_INJECTED.swap(0, std::sync::atomic::Ordering::Relaxed);
+                    match started {
+                        Ok(Ok(mut w)) => {
+                            w.write(&rec);
+                            let cpath = std::ffi::CString::new(path).unwrap();
+                            let a = match catch_unwind(AssertUnwindSafe(|| match ShmReader::new(&cpath) {
+                                Ok(mut r) => match r.snapshot() {
+                                    Ok(c) => if *c == rec { "same".to_string() } else { "differs".to_string() },
+                                    Err(e) => format!("snapshot-err:{:?}", e).replace(' ', ""),
+                                },
+                                Err(e) => format!("open-err:{:?}", e).replace(' ', ""),
+                            })) {
+                                Ok(s) => s,
+                                Err(_) => "panic".to_string(),
+                            };
+                            let bytes = std::fs::read(path).unwrap_or_default();
+                            let hex: String = bytes.iter().take(16).map(|b| format!("{:02x}", b)).collect();
+                            println!("STARTED file={} after={} errno={} injected={} A={} len={} header={}", i, after, errno, injected, a, bytes.len(), hex);
+                            drop(w);
+                            vworld::close_fds_pointing_to(std::path::Path::new(path), &[]);
+                        }
+                        Ok(Err(e)) => println!("REFUSED file={} after={} errno={} injected={} {}", i, after, errno, injected, format!("{}", e).replace(' ', "_")),
+                        Err(_) => println!("PANIC file={} after={} errno={} injected={}", i, after, errno, injected),
+                    }
+                }
+            }
+        }
+        return;
+    }
+
     if mode == "repair" {
         // Daemon start-up and first publication over pre-existing files; what new clients then read.
         use clock_bound_shm::ShmReader;
